@@ -1251,3 +1251,146 @@ func twinPackagesFamily() []*Program {
 	}
 	return out
 }
+
+// crossInjectorCases: what one injector (or one set variable) of a package establishes must not
+// leak into the analysis of another. Each case has an accepted first injector and a second one
+// that must be rejected for the stated class (the same second injector alone is rejected too).
+func crossInjectorCases() []*RejectCase {
+	var out []*RejectCase
+	add := func(b *PB, class, cell string, must ...string) {
+		b.P.Note = cell
+		out = append(out, &RejectCase{P: b.P, Class: class, MustName: must, Cell: cell})
+	}
+	for _, secondFirst := range []bool{false, true} {
+		// twin packages: the second injector lists the OTHER package's equally named set
+		{
+			b := NewPB(fmt.Sprintf("xi_twin_%v", secondFirst), "app", "a_store", "b_store")
+			b.P.Pkgs[1].Name, b.P.Pkgs[2].Name = "store", "store"
+			ta, tb := b.Carrier(1, "T"), b.Carrier(2, "T")
+			fa, fb := b.Func(1, "New", ta, false, false), b.Func(2, "New", tb, false, false)
+			fa.Stub, fb.Stub = true, true
+			sa := b.Set(1, "Set", ItemRef(fa.ID))
+			sb := b.Set(2, "Set", ItemRef(fb.ID))
+			app := b.Carrier(0, "App")
+			na := b.Func(0, "NewApp", app, false, false, ta)
+			na.Stub = true
+			mk := []func(){
+				func() { b.Inj("InitGood", ta, false, false, nil, SetRef(sa.ID)) },
+				func() { b.Inj("InitBad", app, false, false, nil, SetRef(sb.ID), ItemRef(na.ID)) },
+			}
+			if secondFirst {
+				mk[0], mk[1] = mk[1], mk[0]
+			}
+			mk[0]()
+			mk[1]()
+			add(b, "missing", fmt.Sprintf("cross-injector/twin-package-set/bad-first=%v", secondFirst), DiagName(b.P, ta))
+		}
+		// a named set one injector completes with an extra provider; the other lists the set alone
+		{
+			b := NewPB(fmt.Sprintf("xi_shared_%v", secondFirst), "app")
+			dep, top := b.Carrier(0, "Dep"), b.Carrier(0, "Top")
+			nt := b.Func(0, "NewTop", top, false, false, dep)
+			nd := b.Func(0, "NewDep", dep, false, false)
+			nt.Stub, nd.Stub = true, true
+			base := b.Set(0, "BaseSet", ItemRef(nt.ID))
+			mk := []func(){
+				func() { b.Inj("InitFull", top, false, false, nil, SetRef(base.ID), ItemRef(nd.ID)) },
+				func() { b.Inj("InitBare", top, false, false, nil, SetRef(base.ID)) },
+			}
+			if secondFirst {
+				mk[0], mk[1] = mk[1], mk[0]
+			}
+			mk[0]()
+			mk[1]()
+			add(b, "missing", fmt.Sprintf("cross-injector/shared-set-completed-elsewhere/bad-first=%v", secondFirst), DiagName(b.P, dep))
+		}
+		// a wrapper set binds an interface over a base set; another injector uses the base set
+		// alone and needs the interface
+		{
+			b := NewPB(fmt.Sprintf("xi_bindleak_%v", secondFirst), "app")
+			c := b.Carrier(0, "English")
+			g := b.Iface(0, "Greeter", PtrTo(c), true)
+			nc := b.Func(0, "NewEnglish", PtrTo(c), false, false)
+			nc.Stub = true
+			base := b.Set(0, "Base", ItemRef(nc.ID))
+			bound := b.Set(0, "Bound", SetRef(base.ID), ItemRef(b.Bind(g, PtrTo(c)).ID))
+			door := b.Carrier(0, "Door")
+			ndo := b.Func(0, "NewDoor", door, false, false, g)
+			ndo.Stub = true
+			mk := []func(){
+				func() { b.Inj("InitGreeter", g, false, false, nil, SetRef(bound.ID)) },
+				func() { b.Inj("InitDoor", door, false, false, nil, SetRef(base.ID), ItemRef(ndo.ID)) },
+			}
+			if secondFirst {
+				mk[0], mk[1] = mk[1], mk[0]
+			}
+			mk[0]()
+			mk[1]()
+			add(b, "missing", fmt.Sprintf("cross-injector/binding-in-wrapper-set/bad-first=%v", secondFirst), DiagName(b.P, g))
+		}
+		// a named set used by one injector and merely listed (not needed) by another
+		{
+			b := NewPB(fmt.Sprintf("xi_unusedset_%v", secondFirst), "app")
+			foo, bar := b.Carrier(0, "Foo"), b.Carrier(0, "Bar")
+			nf := b.Func(0, "NewFoo", foo, false, false)
+			nb := b.Func(0, "NewBar", bar, false, false)
+			nf.Stub, nb.Stub = true, true
+			bs := b.Set(0, "BarSet", ItemRef(nb.ID))
+			mk := []func(){
+				func() { b.Inj("InitBar", bar, false, false, nil, ItemRef(nf.ID), SetRef(bs.ID)).Build = []Ref{SetRef(bs.ID)} },
+				func() { b.Inj("InitFoo", foo, false, false, nil, ItemRef(nf.ID), SetRef(bs.ID)) },
+			}
+			if secondFirst {
+				mk[0], mk[1] = mk[1], mk[0]
+			}
+			mk[0]()
+			mk[1]()
+			add(b, "unused", fmt.Sprintf("cross-injector/set-used-elsewhere/bad-first=%v", secondFirst))
+		}
+	}
+	return out
+}
+
+// sameNamedValuesFamily (C14): one injector reaches several wire.Value / wire.InterfaceValue
+// expressions whose types derive the same variable name: types called Config in two library
+// packages and in the injector's package, T next to *T, and a user-owned identifier with the
+// name wire would pick first.
+func sameNamedValuesFamily() []*Program {
+	var out []*Program
+	for v := 0; v < 6; v++ {
+		b := NewPB(fmt.Sprintf("sv%02d", v), "app", "liba", "libb")
+		ca, cb, c0 := b.Carrier(1, "Config"), b.Carrier(2, "Config"), b.Carrier(0, "Config")
+		var tys []*Ty
+		switch v {
+		case 0:
+			tys = []*Ty{ca, cb}
+		case 1:
+			tys = []*Ty{cb, ca, c0}
+		case 2:
+			tys = []*Ty{c0, PtrTo(c0)}
+		case 3:
+			tys = []*Ty{PtrTo(ca), ca, PtrTo(cb), cb}
+		case 4:
+			tys = []*Ty{ca, cb}
+			b.P.PkgVars = []string{"var _wireConfigValue = \"user-owned\"", "var _wireLibaConfigValue = 1"}
+			b.P.PkgIdents = []string{"_wireConfigValue", "_wireLibaConfigValue"}
+		case 5:
+			tys = []*Ty{c0, ca, PtrTo(cb)}
+			b.P.Pkgs[1].Name, b.P.Pkgs[2].Name = "lib", "lib"
+		}
+		var items []*Item
+		for _, t := range tys {
+			items = append(items, b.Value(t))
+		}
+		top := b.Carrier(0, "Top")
+		items = append(items, b.Func(0, "NewTop", top, false, false, tys...))
+		b.Inj("Init", top, false, false, nil, refs(items...)...)
+		// a second injector sharing one of the values through its own Build list
+		b.Inj("InitOne", tys[0], false, false, nil, ItemRef(items[0].ID))
+		cell := fmt.Sprintf("same-named-values/variant=%d", v)
+		b.P.Note = cell
+		b.P.Feat = map[string]string{"cell": cell}
+		out = append(out, b.P)
+	}
+	return out
+}
